@@ -207,8 +207,23 @@ type Attr struct {
 // UnmarshalToType unmarshals the data into a value of the type represented by
 // the attribute and returns it.
 func (a Attr) UnmarshalToType(data []byte) (any, error) {
-	if a.Nullable && string(data) == "null" {
-		return GetZeroValue(a.Type, a.Nullable), nil
+	if string(data) == "null" {
+		if a.Nullable {
+			return GetZeroValue(a.Type, a.Nullable), nil
+		}
+
+		// encoding/json silently ignores null when unmarshaling into a
+		// string or a time.Time, but the attribute is not nullable.
+		//
+		// NOTE Null is still accepted for a slice of bytes because a nil
+		// slice is marshaled as null.
+		if a.Type == AttrTypeString || a.Type == AttrTypeTime {
+			return nil, NewErrInvalidFieldValueInBody(
+				a.Name,
+				string(data),
+				GetAttrTypeString(a.Type, a.Nullable),
+			)
+		}
 	}
 
 	var (
